@@ -983,9 +983,29 @@ func (c *Zed) B1() (Other, error) { return Other{}, nil }
 func (c *Why) B2(o Other) error { return nil }
 `, `package ctl
 
-// @Method(GET)
+// two enums and two structs whose names differ only in letter case: every ordering has to break the tie by name
+type Level string
+
+const LevelA Level = "a"
+
+type LEVEL string
+
+const LEVELB LEVEL = "b"
+
+type Pair struct {
+	A int
+}
+
+type PAIR struct {
+	B int
+}
+
+// @Method(POST)
 // @Route(/c1)
-func (c *Zed) C1() error { return nil }
+// @Query(l1)
+// @Query(l2)
+// @Body(p)
+func (c *Zed) C1(l1 Level, l2 LEVEL, p Pair) (PAIR, error) { return PAIR{}, nil }
 
 // @Method(GET)
 // @Route(/c2)
@@ -1154,7 +1174,7 @@ func vh_C01_front_split_Q() {
 	cfg := &definitions.OpenAPIGeneratorConfig{}
 	symxAssert(swagen30.GenerateControllersSpec(doc30, cfg, meta.Flat) == nil && swagen31.GenerateControllersSpec(doc31, cfg, meta.Flat) == nil, "C01.front.documents-no-error")
 	symxCover("C01.front.split-documented")
-	want := [][3]string{{"GET", "/z/a1", "A1"}, {"GET", "/z/c1", "C1"}, {"POST", "/y/b2", "B2"}, {"GET", "/y/c2", "C2"}}
+	want := [][3]string{{"GET", "/z/a1", "A1"}, {"POST", "/z/c1", "C1"}, {"POST", "/y/b2", "B2"}, {"GET", "/y/c2", "C2"}}
 	if !hideB1 {
 		want = append(want, [3]string{"GET", "/z/b1", "B1"})
 	}
